@@ -182,7 +182,7 @@ fn compile_child(a: &[&str]) -> String {
             None => std::env::remove_var("OUT_DIR"),
         }
     }
-    let mut paths = Vec::new();
+    let mut paths: Vec<PathBuf> = Vec::new();
     for (i, spec) in a[4..].iter().enumerate() {
         let mut p = root.join("src").join(format!("s{i}.json"));
         match spec.as_bytes().first() {
@@ -195,6 +195,11 @@ fn compile_child(a: &[&str]) -> String {
                 std::fs::write(&p, unhex(&spec[1..])).unwrap();
             }
             Some(b'D') => std::fs::create_dir_all(&p).unwrap(),
+            // R<j>: the path of source j listed once more
+            Some(b'R') => {
+                let j: usize = spec[1..].parse().unwrap();
+                p = paths[j].clone();
+            }
             _ => {}
         }
         paths.push(p);
